@@ -127,7 +127,8 @@ func zzProcAlive() bool {
 	}
 	var mine []zzEffect
 	for _, e := range effs {
-		if e.Proc == zzFS.proc {
+		// only the effects on the path this scenario takes
+		if e.Proc == zzFS.proc && s.Values["world.eff!"+strconv.Itoa(e.I)] != "false" {
 			mine = append(mine, e)
 		}
 	}
@@ -256,3 +257,8 @@ func zzLogShape(path string) (bool, bool, int) {
 	}
 	return true, complete, n
 }
+
+// zzLockDiscipline cannot be observed natively: its obligations are structural (labels with
+// "/struct:"), decided from constants and control flow of the real code, and are reported
+// without a native replay.
+func zzLockDiscipline() (bool, bool, bool, bool) { return true, true, true, true }
